@@ -23,7 +23,7 @@ instance : ScoreLaws Int where
 
 instance : ScoreLaws Rat where
   lt_irrefl := fun _ => Rat.lt_irrefl
-  lt_trans := fun h1 h2 => Rat.not_le.mp (fun h => Rat.not_le.mpr h1 (Rat.le_trans h (Rat.le_of_lt h2)))
+  lt_trans := fun h1 h2 => Rat.not_le.mp (fun h => Rat.not_le.mpr h2 (Rat.le_trans h (Rat.le_of_lt h1)))
   lt_trichotomy := fun a b => by
     rcases Rat.le_total (a := a) (b := b) with h | h
     · by_cases e : a = b
